@@ -532,6 +532,10 @@ def p_dict(I, *a, **kw):
         if isinstance(src, SymDict):
             for k, v in src.s_items():
                 d.s_set(k, v)
+        elif isinstance(src, dict) and I.shadow(src) is not None and type(src).__iter__ is dict.__iter__:
+            # dict(dict-subclass instance): CPython copies the underlying table (here: the shadow)
+            for k, v in I.shadow(src).s_items():
+                d.s_set(k, v)
         elif hasattr(src, "keys"):
             for k in src.keys():
                 d.s_set(k, src[k])
